@@ -54,11 +54,12 @@ type world struct {
 	D     *wl.Double
 	O     *Outcome
 	Conns []*connRun
+	t0    time.Time
 }
 
 func newWorld(tape *sim.Tape, o *Outcome) *world {
 	s := sim.New(tape)
-	w := &world{S: s, N: sim.NewNet(s), O: o, D: &wl.Double{}}
+	w := &world{S: s, N: sim.NewNet(s), O: o, D: &wl.Double{}, t0: time.Now()}
 	w.Srv = redis.NewServer()
 	w.Srv.SetCommandHandler(w.D)
 	w.D.ConnID = func(rc *redis.Conn) string {
@@ -305,6 +306,7 @@ func (w *world) finish() {
 	w.O.Log = w.S.CanonLog()
 	w.O.LogHash = w.S.LogHash()
 	w.O.Steps = w.S.Steps
+	w.O.SimTime += time.Since(w.t0) // bubble clock: advances only when the scheduler sleeps
 	for k, v := range w.S.Counter {
 		w.O.stat(k, v)
 	}
